@@ -180,6 +180,7 @@ type replicaNode struct {
 	starts  int
 	// carried across restarts for the oracles
 	lastReported uint64
+	bestK        int // largest primary prefix the applied entries amounted to so far
 }
 
 type replCluster struct {
@@ -295,6 +296,19 @@ func (cl *replCluster) stopReplica(i int) (stuck bool) {
 	return died
 }
 
+// stopReplicaKeepEngine stops the replica's state machine and connection but
+// leaves its engine open for a final look.
+func (cl *replCluster) stopReplicaKeepEngine(i int) (stuck bool) {
+	rn := cl.replicas[i]
+	if !rn.running {
+		return false
+	}
+	return kit.OnNode(cl.fs, rn.name, rn.name+"-stop", func() {
+		rn.rep.Stop()
+		rn.link.ResetConns("replica stopped")
+	})
+}
+
 // crashReplica kills the replica process (its files stay as written).
 func (cl *replCluster) crashReplica(i int) {
 	rn := cl.replicas[i]
@@ -330,12 +344,17 @@ func scanState(e *engine.EngineFacade) (map[string][]byte, error) {
 // them arrived first does not matter. Returns the largest matching k (a full
 // match of state k counts as k) and whether the match is partial.
 func entryPrefixMatch(m *kit.Model, obs map[string][]byte) (k int, partial, ok bool) {
+	// Several readings can fit (deleting a key that step k-1 created gives the
+	// state before k-1 again). Going down from the end and trying "exactly k"
+	// before "k-1 plus part of k" finds the reading that credits the replica
+	// with the most steps applied in full.
 	for k = m.Len(); k >= 0; k-- {
 		if kit.EqualState(obs, m.State(k)) == "" {
 			return k, false, true
 		}
-	}
-	for k = m.Len(); k >= 1; k-- {
+		if k < 1 {
+			break
+		}
 		inStep := map[string]bool{}
 		for _, w := range m.Step(k) {
 			inStep[string(w.Key)] = true
